@@ -522,7 +522,53 @@ func staleGUID(vals [][]byte) {
 
 // ---------------------------------------------------------------------------------
 
+// sharedResults: a parser that returns a pointer must return an object of its own every time —
+// parse a text, overwrite the result through its own methods/fields, parse the same text again
+// (and a different spelling of the same value): the second result must be the value of the text.
+func sharedResults(vals [][]byte) {
+	parsers := []struct {
+		name string
+		f    func(string) (*guid.GUID, error)
+		fmt  byte
+	}{{"guid.FromString", guid.FromString, 'D'}, {"guid.FromFormatN", guid.FromFormatN, 'N'}, {"guid.FromFormatD", guid.FromFormatD, 'D'},
+		{"guid.FromFormatB", guid.FromFormatB, 'B'}, {"guid.FromFormatP", guid.FromFormatP, 'P'}, {"guid.FromFormatX", guid.FromFormatX, 'X'}}
+	other := []byte{0xF0, 0xE1, 0xD2, 0xC3, 0xB4, 0xA5, 0x96, 0x87, 0x78, 0x69, 0x5A, 0x4B, 0x3C, 0x2D, 0x1E, 0x0F}
+	for vi, b := range vals {
+		_, want := guidWant(b)
+		for _, p := range parsers {
+			text := guidFormat(&want, p.fmt)
+			if vi%2 == 1 {
+				text = strings.ToUpper(text)
+			}
+			cs := map[string]any{"text": text, "parser": p.name}
+			var g1, g2 *guid.GUID
+			var e1, e2 error
+			pan, pv, st := mon.Guard(func() {
+				g1, e1 = p.f(text)
+				if e1 == nil && g1 != nil {
+					g1.FromRawBytes(other) // the caller reuses what it was given
+					g1.A ^= 0xFFFFFFFF
+				}
+				g2, e2 = p.f(text)
+			})
+			r.Eval(2)
+			switch {
+			case pan:
+				r.Violation(p.name+":shared-result:panic", fmt.Sprintf("%v at %s", pv, mon.TopLibFrame(st)), cs)
+			case e1 != nil || e2 != nil || g2 == nil:
+				// acceptance is judged by the main workload
+			case g1 == g2:
+				r.Violation(p.name+":shared-result", "two parses of the same text returned the same object: the caller's changes to the first result reach the second", cs)
+			case *g2 != want:
+				r.Violation(p.name+":shared-result", fmt.Sprintf("after the first result of parsing %q was overwritten by its owner, a second parse of the same text yields %s", text, guidFormat(g2, 'D')), cs)
+			}
+		}
+		r.Nontrivial("shared-result|" + hexOf(b))
+	}
+}
+
 func stateMonitors() {
+	sharedResults(boundaryValues()[:40])
 	rng := r.Rand("state")
 	gc := &guidChain{prev: "nothing"}
 	uc := &uuidChain{prev: map[string]string{"gen": "nothing", "uuid_v1": "nothing", "uuid_v2": "nothing", "uuid_v8": "nothing"}}
